@@ -33,6 +33,10 @@ class UserError(Exception):
     pass
 
 
+class UserInterrupt(BaseException):
+    """What KeyboardInterrupt / SystemExit are: a way out of the block that is not an Exception."""
+
+
 class Server(ae_mod.AE):
     """Accepting entity whose behaviour is set per scenario."""
 
@@ -140,10 +144,32 @@ def _scenario(scn, given, placement, rng, srv, cl, obs):
             srv.in_echo = (placement, given[1])
         if scn == 'acc-release':
             srv.in_echo = ('release-before-response',)
+        how = None
+        if scn == 'req-exit-error' and isinstance(placement, tuple):
+            placement, how = placement          # how the block is left: an exception outside the Exception hierarchy
         try:
+            if how == 'generator':
+                # the association lives inside a generator the caller abandons (what an early `break` out of the
+                # c_find convenience wrapper does): GeneratorExit is thrown into the block
+                def abandoned():
+                    with cl.request_association(REMOTE) as assoc_:
+                        obs['entered'] = True
+                        echo_ = assoc_.get_scu(sc.VERIFICATION_SOP_CLASS)
+                        for i_ in range(placement):
+                            echo_(i_ + 1)
+                        yield 1
+                        yield 2
+                g = abandoned()
+                next(g)
+                g.close()
+                raise UserError('abandoned')
             with cl.request_association(REMOTE) as assoc:
                 obs['entered'] = True
                 echo = assoc.get_scu(sc.VERIFICATION_SOP_CLASS)
+                if how == 'base':
+                    for i in range(placement):
+                        echo(i + 1)
+                    raise UserInterrupt('the user interrupts the program')
                 if scn == 'req-abort':
                     if placement != 'before':
                         echo(1)                                  # an exchange first; the server-side service then waits
@@ -170,7 +196,7 @@ def _scenario(scn, given, placement, rng, srv, cl, obs):
             obs['reqErr'] = {'type': 'AssociationAbortedError', 'f': [e.source, e.reason_diag]}
         except exceptions.AssociationReleasedError:
             obs['reqErr'] = {'type': 'AssociationReleasedError', 'f': []}
-        except UserError:
+        except (UserError, UserInterrupt):
             obs['reqErr'] = {'type': 'UserError', 'f': []} if scn != 'req-abort' else {'type': 'none', 'f': []}
         except Exception as e:          # noqa
             obs['reqErr'] = {'type': type(e).__name__, 'f': []}
@@ -472,6 +498,8 @@ def main(tier='quick'):
     for n in (0, 1, 3):
         plan.append(('req-exit-normal', (), n))
         plan.append(('req-exit-error', (), n))
+        plan.append(('req-exit-error', (), (n, 'base')))
+        plan.append(('req-exit-error', (), (n, 'generator')))
     cases = []
     for scn, given, pl in plan:
         try:
